@@ -169,6 +169,16 @@ func main() {
 				found++
 			}
 		}
+		if rp := replayers[*prop]; found == 0 && rp != nil {
+			tried++
+			text, reproduced := rp(f)
+			fmt.Println(text)
+			if reproduced {
+				b, _ := json.Marshal(f)
+				fmt.Println("STILL-FAILS", string(b))
+				found++
+			}
+		}
 		if found > 0 {
 			os.Exit(1)
 		}
